@@ -1,5 +1,6 @@
 import ScyllaVerif.Model.Util
 import ScyllaVerif.Model.Codec
+import ScyllaVerif.Model.TypedCarrier
 /-! Line-protocol driver for C01.
 
 Notation (space separated prefix tokens, explicit counts; strings / bytes as hex, `-` = empty; every
@@ -16,12 +17,16 @@ fixed-width number is the hex of its big-endian two's-complement bit pattern):
 
 Cases:
   `dyn T V`        → `<cell hex> -> <decoded value>` | `<cell hex> -> err K` | `err K`
-  `carrier C T V`  → `<cell hex>` | `err K`      (V is the embedding of the Rust carrier value)
+  `carrier C T V`  → `<cell hex>` | `err K`      (V is the embedding of the Rust carrier value; the model runs
+                     the TYPED serializer `TypedCarrier.serCarrier` of carrier C on the un-embedded value)
   `carrierset C T V` → `ok <cell length>` | `err K` (hash-based carriers: element order is arbitrary)
   `dec T <hex>|null` → `<decoded value>` | `err K`  (decoder on an arbitrary cell body)
+  `dynraw T V`     → `<content hex>` | `err K`   (`write_size = false` at the top level)
+  `big blob n`     → `ok <len>` | `err SizeOverflow`  (size check only)
+  `tdec C T <hex>` → echo (typed decoders are oracle-only)
 -/
 namespace ScyllaVerif.Drive.C01
-open ScyllaVerif.Util ScyllaVerif.Cql ScyllaVerif.Codec ScyllaVerif.Vint
+open ScyllaVerif.Util ScyllaVerif.Cql ScyllaVerif.Codec ScyllaVerif.Vint ScyllaVerif.TypedCarrier
 
 def utf8ok (bs : List UInt8) : Bool := ByteArray.validateUTF8 ⟨bs.toArray⟩
 
@@ -252,6 +257,117 @@ def showDec : Except DeErr CqlVal → String
   | .ok v => " ".intercalate (showVal v)
   | .error e => "err " ++ deErrName e
 
+/-! ### carriers: name → descriptor (prefix grammar, tokens separated by `_`), embedding → Rust value -/
+
+def leafCarrier : String → Option Carrier
+  | "i8" => some .i8 | "i16" => some .i16 | "i32" => some .i32 | "i64" => some .i64 | "f32" => some .f32
+  | "f64" => some .f64 | "bool" => some .bool | "string" => some .string | "blob" => some .blob
+  | "inet" => some .inet | "uuid" => some .uuid | "timeuuid" => some .timeuuid | "date" => some .date
+  | "time" => some .time | "timestamp" => some .timestamp | "duration" => some .duration
+  | "varint" => some .varint | "decimal" => some .decimal | "counter" => some .counter | "dyn" => some .dyn
+  -- identified with their content / their core carrier after conversion
+  | "bytes" | "bytesref" => some .blob
+  | "strref" | "cowstr" | "secret08string" | "secret10string" => some .string
+  | "varintborrowed" | "bigint03" | "bigint04" => some .varint
+  | "decimalborrowed" | "bigdecimal" => some .decimal
+  | "chronodate" | "timedate" => some .date
+  | "chronotime" | "timetime" => some .time
+  | "chronodatetime" | "timeoffsetdatetime" => some .timestamp
+  | "secretbox10i64" => some .i64
+  | _ => none
+
+mutual
+def parseCarrier : Nat → List String → Option (Carrier × List String)
+  | 0, _ => none
+  | _, [] => none
+  | fuel + 1, tok :: rest =>
+    match tok with
+    | "opt" => (parseCarrier fuel rest).map fun (c, r) => (.opt c, r)
+    | "munset" => (parseCarrier fuel rest).map fun (c, r) => (.maybeUnset c, r)
+    | "mempty" => (parseCarrier fuel rest).map fun (c, r) => (.maybeEmpty c, r)
+    | "vec" => (parseCarrier fuel rest).map fun (c, r) => (.vec c, r)
+    | "box" | "arc" => parseCarrier fuel rest
+    | "bset" | "hset" => (parseCarrier fuel rest).map fun (c, r) => (.set c, r)
+    | "bmap" | "hmap" =>
+      match parseCarrier fuel rest with
+      | none => none
+      | some (k, r) => (parseCarrier fuel r).map fun (v, r2) => (.map k v, r2)
+    | "tup1" => (parseCarriers fuel 1 rest).map fun (cs, r) => (.tuple cs, r)
+    | "tup2" => (parseCarriers fuel 2 rest).map fun (cs, r) => (.tuple cs, r)
+    | "tup3" => (parseCarriers fuel 3 rest).map fun (cs, r) => (.tuple cs, r)
+    | leaf => (leafCarrier leaf).map fun c => (c, rest)
+def parseCarriers : Nat → Nat → List String → Option (List Carrier × List String)
+  | 0, _, _ => none
+  | _, 0, toks => some ([], toks)
+  | fuel + 1, n + 1, toks =>
+    match parseCarrier fuel toks with
+    | none => none
+    | some (c, r) => (parseCarriers fuel n r).map fun (cs, r2) => (c :: cs, r2)
+end
+
+def carrierOfName (name : String) : Option Carrier :=
+  let toks := name.splitOn "_"
+  match parseCarrier (toks.length + 1) toks with
+  | some (c, []) => some c
+  | _ => none
+
+def unembedPrim : Carrier → CqlVal → Option RustVal
+  | .i8, .tinyint x => some (.i8 x) | .i16, .smallint x => some (.i16 x) | .i32, .int x => some (.i32 x)
+  | .i64, .bigint x => some (.i64 x) | .f32, .float x => some (.f32 x) | .f64, .double x => some (.f64 x)
+  | .bool, .boolean b => some (.bool b) | .string, .text s => some (.string s) | .string, .ascii s => some (.string s)
+  | .blob, .blob b => some (.blob b) | .inet, .inet4 a => some (.inet4 a) | .inet, .inet6 a => some (.inet6 a)
+  | .uuid, .uuid x => some (.uuid x) | .timeuuid, .timeuuid x => some (.timeuuid x) | .date, .date x => some (.date x)
+  | .time, .time x => some (.time x) | .timestamp, .timestamp x => some (.timestamp x)
+  | .duration, .duration m d n => some (.duration m d n) | .varint, .varint b => some (.varint b)
+  | .decimal, .decimal s b => some (.decimal s b) | .counter, .counter x => some (.counter x)
+  | _, _ => none
+
+mutual
+/-- The Rust value of carrier type `c` whose embedding is `v` (the harness does the same on its side). -/
+def unembed : Carrier → CqlVal → Option RustVal
+  | .opt c, v => match v with
+    | .null => some .none
+    | _ => (unembed c v).map .some
+  | .maybeUnset c, v => match v with
+    | .unset => some .unset
+    | _ => (unembed c v).map .set
+  | .maybeEmpty c, v => match v with
+    | .empty => some .empty
+    | _ => (unembed c v).map .value
+  | .vec c, v => match v with
+    | .list vs | .set vs | .vector vs => (vs.mapM (fun x => unembed c x)).map .seq
+    | _ => none
+  | .set c, v => match v with
+    | .list vs | .set vs => (vs.mapM (fun x => unembed c x)).map .seq
+    | _ => none
+  | .map k w, v => match v with
+    | .map kvs => (kvs.mapM (fun (kv : CqlVal × CqlVal) => match unembed k kv.1, unembed w kv.2 with
+        | some a, some b => some (a, b)
+        | _, _ => none)).map .pairs
+    | _ => none
+  | .tuple cs, v => match v with
+    | .tuple fs => (unembedTuple cs fs).map .tuple
+    | _ => none
+  | .dyn, v => some (.dyn v)
+  | c, v => unembedPrim c v
+def unembedTuple : List Carrier → List CqlVal → Option (List RustVal)
+  | [], [] => some []
+  | c :: cs, f :: fs =>
+    match unembed c f, unembedTuple cs fs with
+    | some a, some r => some (a :: r)
+    | _, _ => none
+  | _, _ => none
+end
+
+/-- A `carrier` case: the typed serializer of the carrier on the value whose embedding is given. -/
+def runCarrier (name : String) (t : CqlTy) (v : CqlVal) : Option (Except SerErr Bytes) :=
+  match carrierOfName name with
+  | none => none
+  | some c =>
+    match unembed c v with
+    | none => none
+    | some x => some (serCarrier c t x true [])
+
 def run (case _impl : String) : String :=
   let toks := words case
   let fuel := toks.length + 1
@@ -266,26 +382,44 @@ def run (case _impl : String) : String :=
         | .error e => "err " ++ serErrName e
         | .ok cell => toHex cell ++ " -> " ++ showDec (decBytes utf8ok t cell)
       | _ => "bad-case"
-  | "carrier" :: _name :: rest =>
+  | "carrier" :: name :: rest =>
     match parseTy fuel rest with
     | none => "bad-case"
     | some (t, r) =>
       match parseVal fuel r with
       | some (v, []) =>
-        match encImpl t v true [] with
-        | .error e => "err " ++ serErrName e
-        | .ok cell => toHex cell
+        match runCarrier name t v with
+        | none => "bad-case"
+        | some (.error e) => "err " ++ serErrName e
+        | some (.ok cell) => toHex cell
       | _ => "bad-case"
-  | "carrierset" :: _name :: rest =>
+  | "carrierset" :: name :: rest =>
     match parseTy fuel rest with
     | none => "bad-case"
     | some (t, r) =>
       match parseVal fuel r with
       | some (v, []) =>
-        match encImpl t v true [] with
-        | .error e => "err " ++ serErrName e
-        | .ok cell => "ok " ++ toString cell.length
+        match runCarrier name t v with
+        | none => "bad-case"
+        | some (.error e) => "err " ++ serErrName e
+        | some (.ok cell) => "ok " ++ toString cell.length
       | _ => "bad-case"
+  | "dynraw" :: rest =>
+    match parseTy fuel rest with
+    | none => "bad-case"
+    | some (t, r) =>
+      match parseVal fuel r with
+      | some (v, []) =>
+        match encImpl t v false [] with
+        | .error e => "err " ++ serErrName e
+        | .ok body => toHex body
+      | _ => "bad-case"
+  | ["big", "blob", n] =>
+    -- only the size check of `set_value` (Props.C01.size_overflow_blob): content above `i32::MAX` is rejected
+    match n.toNat? with
+    | some n => if n > i32Max then "err SizeOverflow" else "ok " ++ toString (n + 4)
+    | none => "bad-case"
+  | "tdec" :: _ => _impl  -- typed decoders are not modelled: oracle-only cases (no panic, idempotence)
   | "dec" :: rest =>
     match parseTy fuel rest with
     | none => "bad-case"
